@@ -106,6 +106,8 @@ type RT struct {
 	advance   func(time.Duration)
 	ftypes    map[*Fn]reflect.Type
 	scopeOf   func(int) scopeAPI // set by Run: scope index -> live scope
+	root      *dig.Container     // set by Run
+	Sides     int                // side calls made from inside bodies
 	decoIDs   map[int]bool       // fn ids registered through Decorate
 	Reentered int
 	cbCalls   map[int]int
@@ -421,6 +423,25 @@ func (rt *RT) call(f *Fn, args []reflect.Value) []reflect.Value {
 			rt.Reentered++
 			nf := &Fn{ID: -f.ID, P: f.Reenter.P}
 			_ = rt.scopeOf(f.Reenter.S).Invoke(rt.Materialise(nf))
+		}
+	}
+	if f.Side != "" && rt.scopeOf != nil {
+		rt.Sides++
+		sc := rt.scopeOf(f.SideS)
+		switch f.Side {
+		case "string":
+			_ = sc.String()
+		case "visualize":
+			if rt.root != nil {
+				var buf strings.Builder
+				_ = dig.Visualize(rt.root, &buf)
+			}
+		case "scope":
+			_ = sc.Scope("side")
+		case "provide":
+			_ = sc.Provide(func() *TX { return nil })
+		case "decorate":
+			_ = sc.Decorate(func(x *TX) *TX { return x })
 		}
 	}
 	outcome := FaultOK
